@@ -76,9 +76,38 @@ pub fn emit_inputs<T: Sc>(out: &mut Out, c: &StateCase<T>) {
 }
 
 pub fn emit_state_case<T: Sc>(out: &mut Out, c: &StateCase<T>) {
-    out.begin("state", &header_common(c));
+    run_state_case(Some(out), c, None);
+}
+
+/// a history in which one model call fails: `step` = index into the history, `which` = 0 the
+/// model's set_params, 1 its eval (both inside the problem's set_params)
+pub fn emit_faulty_state_case<T: Sc>(out: &mut Out, c: &StateCase<T>, step: usize, which: usize) {
+    let marks = run_state_case(None, c, None);
+    if step >= marks.len() {
+        return;
+    }
+    let k = marks[step] + which;
+    run_state_case(Some(out), c, Some((k, k + 1)));
+}
+
+/// returns the number of model calls made before each history step
+pub fn run_state_case<T: Sc>(out: Option<&mut Out>, c: &StateCase<T>, fault: Option<(usize, usize)>) -> Vec<usize> {
+    let mut sink = Out::new();
+    let out: &mut Out = match out {
+        Some(o) => o,
+        None => &mut sink,
+    };
+    let mut marks = Vec::new();
+    match fault {
+        Some((a, b)) => out.begin("state", &format!("{} failfrom={} failto={}", header_common(c), a, b)),
+        None => out.begin("state", &header_common(c)),
+    };
     emit_inputs(out, c);
     let probe = Probe::new();
+    probe.logging.store(false, std::sync::atomic::Ordering::SeqCst);
+    if let Some((a, b)) = fault {
+        probe.set_fault(a, b);
+    }
     let model = make_model::<T>(&c.recipe, &c.init, c.built, &probe);
     let wv = c.w.as_ref().map(|w| DVector::from_vec(w.clone()));
     let r = guarded(|| build_problem(c.flavour, model, &c.y, wv.as_ref(), c.eps));
@@ -86,12 +115,12 @@ pub fn emit_state_case<T: Sc>(out: &mut Out, c: &StateCase<T>) {
         Err(m) => {
             out.line(&format!("built panic {}", m));
             out.end();
-            return;
+            return marks;
         }
         Ok(Err(e)) => {
             out.line(&format!("built err {}", e));
             out.end();
-            return;
+            return marks;
         }
         Ok(Ok(p)) => p,
     };
@@ -101,6 +130,7 @@ pub fn emit_state_case<T: Sc>(out: &mut Out, c: &StateCase<T>) {
     out.line(&format!(" impl eps {}", hex(crate::pbuilder::parse_eps_from_debug::<T>(&prob.debug()))));
     emit_outputs(out, "impl", prob.as_ref());
     for (i, alpha) in c.history.iter().enumerate() {
+        marks.push(probe.count());
         out.line(&format!("step set {}", slice_str(alpha)));
         emit_tables(out, &c.recipe, alpha);
         let av = DVector::from_vec(alpha.clone());
@@ -110,12 +140,16 @@ pub fn emit_state_case<T: Sc>(out: &mut Out, c: &StateCase<T>) {
             break;
         }
         emit_outputs(out, "impl", prob.as_ref());
-        // repeated query must not change anything
-        emit_outputs(out, "again", prob.as_ref());
-        // a freshly built problem at the same parameters (history-free twin)
-        if i % 2 == 1 || i + 1 == c.history.len() {
+        // repeated query must not change anything (not under fault injection: the extra derivative
+        // calls would shift the call indices)
+        if fault.is_none() {
+            emit_outputs(out, "again", prob.as_ref());
+        }
+        // a freshly built problem at the parameters the problem reports (history-free twin)
+        if i % 2 == 1 || i + 1 == c.history.len() || fault.is_some() || c.origin != "random" {
             let probe2 = Probe::new();
-            let model2 = make_model::<T>(&c.recipe, alpha, c.built, &probe2);
+            let cur: Vec<T> = prob.params().iter().copied().collect();
+            let model2 = make_model::<T>(&c.recipe, &cur, c.built, &probe2);
             if let Ok(Ok(fresh)) = guarded(|| build_problem(c.flavour, model2, &c.y, wv.as_ref(), c.eps)) {
                 emit_outputs(out, "fresh", fresh.as_ref());
             } else {
@@ -125,6 +159,7 @@ pub fn emit_state_case<T: Sc>(out: &mut Out, c: &StateCase<T>) {
     }
     out.line(&format!(" impl ywfinal {}", mat_str(&prob.yw())));
     out.end();
+    marks
 }
 
 pub fn random_state_case<T: Sc>(rng: &mut Rng, thorough: bool, idx: usize) -> StateCase<T> {
@@ -218,6 +253,27 @@ pub fn rankdef_case<T: Sc>(rng: &mut Rng, idx: usize) -> StateCase<T> {
     }
 }
 
+/// histories that pass through parameters at which the model values are not finite (or huge),
+/// then return to ordinary ones: the state after each update must be that of a fresh problem
+pub fn extreme_case<T: Sc>(rng: &mut Rng, idx: usize) -> StateCase<T> {
+    let mut c = random_state_case::<T>(rng, false, idx);
+    c.origin = "extreme";
+    let specials = [-1e-3, 0.0, 1e308, f64::NAN, f64::INFINITY, -1e308, 1e-300, -2.0];
+    let p = c.recipe.p();
+    let mut hist: Vec<Vec<T>> = Vec::new();
+    let n = rng.range(3, 6);
+    for h in 0..n {
+        let mut a: Vec<T> = random_alpha(rng, p).iter().map(|v| T::of(*v)).collect();
+        if h % 2 == 1 || (h == 0 && idx % 3 == 0) {
+            let k = rng.below(p);
+            a[k] = T::of(*rng.pick(&specials));
+        }
+        hist.push(a);
+    }
+    c.history = hist;
+    c
+}
+
 pub fn stream(out: &mut Out, seed: u64, thorough: bool) {
     let mut rng = Rng::new(seed ^ 0x57A7E);
     let n = if thorough { 6000 } else { 300 };
@@ -239,5 +295,29 @@ pub fn stream(out: &mut Out, seed: u64, thorough: bool) {
             let c = rankdef_case::<f64>(&mut rng, i);
             emit_state_case(out, &c);
         }
+    }
+    // histories with extreme parameters and histories with one failing model call
+    let ne = if thorough { 1500 } else { 100 };
+    for i in 0..ne {
+        if i % 4 == 3 {
+            let c = extreme_case::<f32>(&mut rng, i);
+            emit_state_case(out, &c);
+        } else {
+            let c = extreme_case::<f64>(&mut rng, i);
+            emit_state_case(out, &c);
+        }
+    }
+    let nf = if thorough { 1500 } else { 100 };
+    for i in 0..nf {
+        let mut c = random_state_case::<f64>(&mut rng, false, i);
+        c.origin = "faulty";
+        // sequential flavours: deterministic order of the derivative calls
+        c.flavour = c.flavour.seq();
+        while c.history.len() < 3 {
+            let a: Vec<f64> = random_alpha(&mut rng, c.recipe.p());
+            c.history.push(a);
+        }
+        let step = rng.below(c.history.len() - 1);
+        emit_faulty_state_case(out, &c, step, i % 2);
     }
 }
